@@ -9,8 +9,12 @@ def select(behaviours, thorough):
 
     def relabels(b):
         return sum(1 for s in b["steps"] if s["a"] == "Sign" and s["who"] != s["label"])
+
+    def bad(b):
+        return sum(1 for s in b["steps"] if s["a"] == "Sign" and s.get("variant") == "bad")
     ranked = sorted(behaviours, key=lambda b: (-relabels(b), -b["ncerts"]))
-    return ranked[:n]
+    ranked_bad = sorted(behaviours, key=lambda b: (-bad(b), -b["ncerts"]))
+    return ranked[: n // 2] + ranked_bad[: n - n // 2]
 
 
 def run(tier, seed):
